@@ -205,6 +205,7 @@ func (self *Core) runInstruction(instruction compiler.Instruction) *value.VmInte
 		self.push(self.Memory[abs])
 	case compiler.Opcode_GetGlobImm:
 		i := instruction.(compiler.OneStringInstruction)
+		verifYield("glob-get")
 		self.parent.globals.Mutex.RLock()
 		v := self.parent.globals.Data[i.Value]
 		self.parent.globals.Mutex.RUnlock()
@@ -239,6 +240,7 @@ func (self *Core) runInstruction(instruction compiler.Instruction) *value.VmInte
 		i := instruction.(compiler.OneStringInstruction)
 		v := self.pop()
 
+		verifYield("glob-set")
 		self.parent.globals.Mutex.Lock()
 		self.parent.globals.Data[i.Value] = *v
 		self.parent.globals.Mutex.Unlock()
